@@ -2,6 +2,8 @@
 
 from __future__ import annotations
 
+import json
+
 import tempfile
 from pathlib import Path
 
@@ -264,7 +266,9 @@ def check_algebra(case, stats: Stats) -> None:
 # ------------------------------------------------------------------------------------------------ converter context
 @st.composite
 def context_cases(draw, tier="quick"):
-    recs = draw(S.record_sets(delimiter=":", max_records=4, max_syn=3, unicode_arm=False))
+    # the converter's own delimiter has nothing to do with how references print and parse (always ':')
+    d = draw(st.sampled_from([":", ":", "/", "|", "_", "::"]))
+    recs = draw(S.record_sets(delimiter=d, max_records=4, max_syn=3, unicode_arm=False))
     ps = S.all_prefixes(recs)
     probes = []
     for _ in range(draw(st.integers(1, 5))):
@@ -276,13 +280,16 @@ def context_cases(draw, tier="quick"):
         else:
             p = draw(st.sampled_from(["zz", "", "a", "A1"]))
         probes.append([p, draw(st.sampled_from(["1", "", "a:b", "é"]))])
-    return {"records": recs, "probes": probes, "name": draw(st.sampled_from(NAMES)), "build": draw(st.sampled_from(BUILD_MODES))}
+    return {"records": recs, "probes": probes, "name": draw(st.sampled_from(NAMES)), "build": draw(st.sampled_from(BUILD_MODES)), "delimiter": d}
 
 
 def check_context(case, stats: Stats) -> None:
     recs = case["records"]
-    conv = mk_converter_via({"delimiter": ":", "records": recs}, case.get("build", "at-once"))
-    model = Model(recs)
+    d = case.get("delimiter", ":")
+    conv = mk_converter_via({"delimiter": d, "records": recs}, case.get("build", "at-once"))
+    model = Model(recs, d)
+    if d != ":":
+        stats.cls("context-converter-with-other-delimiter")
     for p, i in case["probes"]:
         if ":" in p:
             continue
@@ -297,6 +304,11 @@ def check_context(case, stats: Stats) -> None:
                 "model_validate(context={'converter': ...})": lambda: C.model_validate({"prefix": p, "identifier": i, **({} if cls == "Reference" else {"name": name})}, context={"converter": conv}),
                 "from_reference": lambda: C.from_reference(curies.NamableReference(prefix=p, identifier=i, name=name), converter=conv),
             }
+            if cls != "NamedReference":
+                builders["model_validate('p:i', context=converter)"] = lambda: C.model_validate(p + ":" + i, context=conv)
+                builders["model_validate_json('\"p:i\"', context={'converter': ...})"] = lambda: C.model_validate_json(json.dumps(p + ":" + i), context={"converter": conv})
+            builders["model_validate_json(object, context=converter)"] = lambda: C.model_validate_json(
+                json.dumps({"prefix": p, "identifier": i, **({} if cls == "Reference" else {"name": name})}), context=conv)
             if cls == "NamedReference" and name is None:
                 continue
             for how, fn in builders.items():
